@@ -408,6 +408,17 @@ pub fn replay_c08(ctx: &Ctx, _sub: &str, case: &Value) -> Judge {
 pub const BLOCKING: [&str; 10] = ["media-jam", "toner-empty", "spool-area-full", "cover-open", "door-open", "input-tray-missing", "output-tray-missing", "marker-supply-empty", "paused", "shutdown"];
 const INFO: [&str; 6] = ["none", "media-low", "toner-low", "marker-supply-low", "x-vendor-info", "x-sleeping"];
 
+/// One member of a printer-state-reasons value. A string starting with '~' stands for a member that is
+/// NOT a keyword ("~n" a name, "~t" a text value): sets of mixed syntaxes are sets too, and the verdict
+/// depends on the keyword members only.
+fn reason_cvalue(k: &str) -> CValue {
+    match k {
+        "~n" => CValue::Str(0x42, b"front-panel".to_vec()),
+        "~t" => CValue::Str(0x41, b"see display".to_vec()),
+        _ => CValue::Str(0x44, k.as_bytes().to_vec()),
+    }
+}
+
 #[derive(Clone, Debug, PartialEq, Eq, Hash)]
 pub struct Resp {
     pub status: u16,
@@ -440,7 +451,15 @@ fn resp() -> BoxedStrategy<Resp> {
         6 => proptest::sample::select(INFO.to_vec()).prop_map(|s| s.to_string()),
         1 => proptest::collection::vec(b'a'..=b'z', 3..9).prop_map(|v| format!("x-{}", String::from_utf8(v).unwrap())),
     ];
-    let reasons = prop_oneof![2 => Just(None), 3 => kw.clone().prop_map(|k| Some(vec![k])), 5 => proptest::collection::vec(kw, 1..=8).prop_map(Some)];
+    let reasons = prop_oneof![2 => Just(None), 3 => kw.clone().prop_map(|k| Some(vec![k])), 5 => proptest::collection::vec(kw.clone(), 1..=8).prop_map(Some),
+        // sets of mixed syntaxes: 1-2 members that are not keywords at generated positions (often first)
+        3 => (proptest::collection::vec(kw, 1..=6), proptest::collection::vec((any::<u16>(), any::<bool>()), 1..=2), any::<bool>()).prop_map(|(mut l, noise, first)| {
+            for (i, (pos, name)) in noise.into_iter().enumerate() {
+                let at = if first && i == 0 { 0 } else { (pos as usize * (l.len() + 1)) >> 16 };
+                l.insert(at, if name { "~n".to_string() } else { "~t".to_string() });
+            }
+            Some(l)
+        })];
     let extra = proptest::collection::vec((proptest::sample::select(vec!["printer-name", "printer-is-accepting-jobs", "queued-job-count", "printer-state-message", "media-ready"]).prop_map(|s| s.to_string()), gen::m_value(1, false)), 0..4);
     let tags = || proptest::collection::vec(prop_oneof![Just(2u8), Just(5u8), Just(1u8)], 0..3);
     (status, state, reasons, tags(), proptest::collection::vec(prop_oneof![Just(2u8), Just(5u8), Just(4u8)], 0..3), extra, prop_oneof![9 => Just(true), 1 => Just(false)], prop_oneof![3 => Just(0u8), 1 => Just(1u8), 1 => Just(2u8), 1 => Just(3u8)])
@@ -512,7 +531,7 @@ fn resp_model(r: &Resp) -> MMsg {
             g.insert(b"printer-state".to_vec(), s.clone());
         }
         if let Some(rs) = &r.reasons {
-            let l: Vec<CValue> = rs.iter().map(|k| CValue::Str(0x44, k.as_bytes().to_vec())).collect();
+            let l: Vec<CValue> = rs.iter().map(|k| reason_cvalue(k)).collect();
             g.insert(b"printer-state-reasons".to_vec(), if l.len() == 1 { l[0].clone() } else { CValue::Set(l) });
         }
         groups.push((4, g));
@@ -587,7 +606,7 @@ pub fn judge_c17(r: &Resp, p: &Probe) -> Judge {
                 msg.attributes_mut().add(DelimiterTag::PrinterAttributes, IppAttribute::new("printer-state", to_ipp(st)));
             }
             if let Some(rs) = &r.reasons {
-                let l: Vec<IppValue> = rs.iter().map(|k| IppValue::Keyword(k.clone())).collect();
+                let l: Vec<IppValue> = rs.iter().map(|k| to_ipp(&reason_cvalue(k))).collect();
                 msg.attributes_mut().add(DelimiterTag::PrinterAttributes, IppAttribute::new("printer-state-reasons", if l.len() == 1 { l[0].clone() } else { IppValue::Array(l) }));
             }
             p.label("response brought up to date with add()");
